@@ -11,6 +11,7 @@ CONSTANTS
   MaxCells = 2
   OpClasses <- OpsTable
   EmitMode <- ModeEdges
+  Plans <- NoPlans
 CONSTRAINT Bound
 ACTION_CONSTRAINT Emit
 VIEW absvars
